@@ -115,6 +115,17 @@ func c04ModeSites(c *Ctx, suspend *FuncInfo) (setters, restorers []c04Site) {
 				seenClass[k] = true
 				st := c04Site{e, s, ms}
 				if inRestore {
+					// a valid once-guard of the exit sequence (c04once.go) is no capability condition of the restorer
+					if once := c04OnceKeys(c, e); once != nil {
+						cp := *e
+						cp.GuardKeys = nil
+						for _, gk := range e.GuardKeys {
+							if !once[gk] {
+								cp.GuardKeys = append(cp.GuardKeys, gk)
+							}
+						}
+						st.em = &cp
+					}
 					if !ms.set || ms.class == "cursor-style" || ms.class == "pointer-shape" || ms.class == "app-id" {
 						restorers = append(restorers, st)
 					}
@@ -447,6 +458,17 @@ func c04Suspend(c *Ctx, fi *FuncInfo, info *types.Info) {
 		{"signal.Stop", func(n ast.Node) bool { return isCallTo(info, n, "os/signal.Stop") }},
 		{"console.Reset", callSel("Vaxis.console", "Reset")},
 	}
+	// "every path through Suspend": with a once-guard of the exit sequence (c04once.go) the paths that latch it
+	entry := Loc{g.Blocks[0], -1}
+	if once := c04OnceGuard(c); once != nil {
+		key := name + "/early return under " + once.flag + " is the once-guard of the exit sequence"
+		if once.valid {
+			entry = once.start
+			c.ok("C04.b", key, once.pos, "%s; nothing else sets it and only Resume clears it, after openTty and with the modes re-established: set means restored and not resumed since (the histories are decided by C04.m)", once.why)
+		} else {
+			c.bad("C04.b", key, once.pos, "%s", once.why)
+		}
+	}
 	var prevMatch func(ast.Node) bool
 	var prevLabel string
 	for _, st := range steps {
@@ -457,7 +479,7 @@ func c04Suspend(c *Ctx, fi *FuncInfo, info *types.Info) {
 			continue
 		}
 		// on every path from entry to exit
-		okAll, _ := g.MustFollow(Loc{g.Blocks[0], -1}, st.match)
+		okAll, _ := g.MustFollow(entry, st.match)
 		c.check(okAll, "C04.b", key+" on every path", hits[0].Node.Pos(), "every path through Suspend performs it", "some path through Suspend skips: "+st.label)
 		if prevMatch != nil {
 			first := hits[0].Loc
